@@ -180,6 +180,18 @@ func genForms(c *core.Check, emit func(Program) bool) {
 		"return {1:1}", "return {0x10:1}", "return {1e3:1}", "return {.5:1}", "return {1n:1}", "return {'1':1,1:2}", "return {get 1(){return 1}}", "return {async 1(){}}", "return {*1(){}}", "return {1(){return 1}}[1]()", "return {async:1,get:2,set:3,static:4}", "return {async(){return 1},get(){return 2},set(){return 3}}.get()", "return {get get(){return 1}}.get", "return {'a':1,'a-b':2,'1a':3,'if':4}",
 		// built-in calls the minifier rewrites, with an unknown number of arguments
 		"return [Math.pow(3,...[a,2]),Math.pow(...[3,2]),Math.trunc(...[1.5]),isNaN(...['x']),Math.abs(...[-2]),Number(...[true])]", "var q=[a,b];return [Math.pow(2,...q),Math.abs(...q),isNaN(...q),Math.trunc(...q)]",
+		// a later declaration of a name that an inner function assigns; blocks that hold only a class; statement bodies that must keep their braces
+		"function g(){var q=2;late=1;return q}var late;g();return [late,typeof q]", "function g(){var q=2,r=3;late=q;other=r}var late,other=5;g();return [late,other]", "var g=()=>{var q=2;late=1;return q};var late;g();return late",
+		"{class A{static x=h1(1)}}return 1", "{class A extends h1(2){}}return 1", "{class A{[h1(3)](){}}}return 1", "{class A{static{h1(4)}}}return 1", "{class A{}}return 1", "if(a){class A{static x=h1(1)}}return 1",
+		"for(;;){function ff(){}break}return typeof ff", "with(a||{}){function fw(){}}return typeof fw", "do{function fd(){}}while(0);return typeof fd", "if(a){function fi(){}}return typeof fi", "l:{function fl(){}}return typeof fl", "while(h2()){function fq(){}}return typeof fq", "for(var k in {p:1}){function fk(){}}return typeof fk", "for(;;){class cc{}break}return 1", "for(;;){let lz=1;break}return 1", "if(a){let ly=1}return 1", "if(a){const lc=1}else{class ce{}}return 1",
+		// for-init: `in` must stay parenthesised also after a nested statement reset the printer's for-state
+		"var x=()=>{for(;;)break},y=(a in {p:1});for(;b;){h1(y);break}return typeof x", "var x=function(){for(var i=0;i<1;i++);},y=(a in {p:1});for(;b;){h1(y);break}return typeof x", "var x={m(){for(;;)break}},y=('p' in x);for(;b;){h1(y);break}return 1", "var x=class{m(){for(;;)break}},y=('m' in x.prototype);for(;b;){h1(y);break}return 1", "var x=`${()=>{for(;;)break}}`,y=(a in {p:1});for(;b;){h1(y);break}return 1",
+		// undefined, NaN, Infinity as local names
+		"function f(undefined){return undefined}return f(1)", "function f(undefined){return [undefined===void 0,typeof undefined]}return f(1)", "var f=(NaN,Infinity)=>[NaN,Infinity];return f(1,2)", "function f(undefined){if(a===undefined)return 1;return 2}return f(a)", "function f(undefined){return a==undefined}return f(0)", "function f(){var undefined=5;return [undefined,a===undefined]}return f()", "var f=function(undefined){return function(){return undefined}};return f(3)()",
+		// __proto__ in object literals
+		"var __proto__={q:1};var x={__proto__:__proto__};return [Object.keys(x),x.q]", "var __proto__={q:1};var x={__proto__};return [Object.keys(x),x.q]", "var p={q:1};var x={'__proto__':p};return [Object.keys(x),x.q]", "var p={q:1};var x={['__proto__']:p};return [Object.keys(x),x.q]", "var p={q:1};var x={__proto__:p,__proto__(){}};return 1",
+		// declarators that read each other, next to a pattern
+		"var p=1,c=p+1,[q]=[2];var z=3;return [p,c,q,z]", "var p=h1(1),c=p+1,{q}={q:2};var z=3;return [p,c,q,z]", "var z;var p=a,c=[p],[q]=c;return [p,c,q,z]", "var p=1,[q]=[p+1],c=q+1;var z=3;return [p,c,q,z]",
 		// numeric literals as conditions
 		"if(0xb0)h1(1);else h1(2)", "if(0xe0)h1(1);else h1(2)", "if(0xE)h1(1);else h1(2)", "return 0xb?1:2", "return !0xb", "return 0x0b&&a", "return 0xen?1:2", "return 0Xe||a", "while(0xb){h1(1);break}", "for(;0xe;){h1(1);break}", "do{h1(1)}while(!0xb)", "return 0b0?1:2", "return 0o0?1:2", "return 0x0?1:2", "return 0x0n?1:2", "return 0b1?1:2", "return 0o7?1:2", "return 0x00?1:2", "return 00?1:2", "return 08?1:2", "return 0.0e1?1:2", "return .0?1:2", "return 0.?1:2", "return 0_0?1:2", "return 0x0_0?1:2", "return 1_0?1:2", "return 0n?1:2", "return 0e5?1:2", "return 0E0?1:2", "return 0.1e-400?1:2", "return '0'?1:2", "return ' '?1:2", "return ``?1:2", "return `${''}`?1:2", "return -0?1:2", "return +0?1:2", "return ~0?1:2", "return [-0?1:2,!-0,!~-1]",
 	}
